@@ -83,6 +83,13 @@ def r1_write_set(repo):
         ok = any(pol and s.endswith("tda.DeclarationNode)") for s, pol in gd) and \
             any(pol and s.endswith("tda.TypeConstructorInstantiationCallNode)") for s, pol in ga) and \
             all(any(pol and s.endswith("tda.DeclarationNode)") for s, pol in _g(by[a])) for a in ("var_type", "ret_type"))
+    okb = False
+    if len(by) == 4:
+        gi = _g(by["inferred_type"])
+        okb = not any("VariableDeclaration" in s_ for s_, _p in gi)
+    obs.append(Ob("C04-R1", "inferred_type-overwritten-for-variables-and-functions", _w(f), okb,
+                  "inferred_type must be overwritten together with var_type AND together with ret_type (Java and Groovy print "
+                  "declared types from inferred_type): its store may not sit inside the variable/function alternative"))
     obs.append(Ob("C04-R1", "declaration-stores-xor-type-argument-store", _w(f), ok,
                   "declaration stores sit under isinstance(n, DeclarationNode), the type-argument store under "
                   "isinstance(n, TypeConstructorInstantiationCallNode) (disjoint node classes, C03-R6)"))
@@ -391,6 +398,14 @@ def _v_helper_mutates_types(tree):
     V.insert_before(tree, r, V.parse_stmts("if isinstance(etype, tp.ParameterizedType):\n    etype.type_args[0] = t"))
 
 
+def _v_inferred_only_for_vars(tree):
+    f = _vf(tree)
+    st = V.one([n for n in ast.walk(f) if isinstance(n, ast.Assign) and ast.unparse(n.targets[0]) == "n.decl.inferred_type"])
+    iff = V.one([n for n in ast.walk(f) if isinstance(n, ast.If) and "VariableDeclaration" in ast.unparse(n.test)])
+    V.remove_stmt(tree, st)
+    iff.body.append(st)
+
+
 def _t_rename(tree):
     f = _vf(tree)
     V.rename_local(f, "ir_type", "replacement")
@@ -411,6 +426,7 @@ def variants():
         V.Variant("message names the new type twice", to, _v_message, {"C04-R5"}),
         V.Variant("virtual return declaration is a candidate", to, _v_ret_candidate, {"C04-R6"}),
         V.Variant("inject_fault reports even when nothing was injected", "src/modules/processor.py", _v_inject_always, {"C04-R7"}),
+        V.Variant("inferred_type overwritten only for variables", to, _v_inferred_only_for_vars, {"C04-R1"}),
         V.Variant("twin: rename locals", to, _t_rename, None, twin=True),
         V.Variant("twin: whole tree reformatted by ast.unparse", None, None, None, twin=True),
     ]
